@@ -402,9 +402,16 @@ pub fn run_program_on<W: Write>(
             }
             Op::Append(i, s) => {
                 let l = *lens.get(&i).ok_or("append before start")?;
+                // a quarter of the appends come from a source that holds more bytes than the announced size, in one piece
+                // (only `size` bytes are the piece): SURPLUS bytes more
+                let more = if (k + s) % 4 == 2 { SURPLUS.len() } else { 0 };
                 let src: Box<dyn Read> = match &p.custom {
-                    Some(_) => Box::new(Cursor::new(p.bytes(i, l, s))),
-                    None => Box::new(content::GenReader { file: i, pos: l, end: l + s as u64, e: p.entropy }),
+                    Some(_) => {
+                        let mut d = p.bytes(i, l, s);
+                        d.extend_from_slice(&SURPLUS[..more]);
+                        Box::new(Cursor::new(d))
+                    }
+                    None => Box::new(content::GenReader { file: i, pos: l, end: l + (s + more) as u64, e: p.entropy }),
                 };
                 // half of the appends (operation index + size odd) hand their data over through a source returning at most 3 bytes per read
                 let src: Box<dyn Read> = if (k + s) % 2 == 1 { Box::new(CapRead { inner: src, cap: 3 }) } else { src };
@@ -424,9 +431,15 @@ pub fn run_program_on<W: Write>(
                 w.end_file(ids[&i]).map_err(|e| format!("op {k} {}: {e:?}", o.short()))?;
             }
             Op::Add(i, s) => {
+                // every third size: the source holds more than the announced size
+                let more = if s % 3 == 1 { SURPLUS.len() } else { 0 };
                 let src: Box<dyn Read> = match &p.custom {
-                    Some(_) => Box::new(Cursor::new(p.bytes(i, 0, s))),
-                    None => Box::new(content::GenReader { file: i, pos: 0, end: s as u64, e: p.entropy }),
+                    Some(_) => {
+                        let mut d = p.bytes(i, 0, s);
+                        d.extend_from_slice(&SURPLUS[..more]);
+                        Box::new(Cursor::new(d))
+                    }
+                    None => Box::new(content::GenReader { file: i, pos: 0, end: (s + more) as u64, e: p.entropy }),
                 };
                 w.add_file(&p.names[i], s as u64, src).map_err(|e| format!("op {k} {}: {e:?}", o.short()))?;
             }
@@ -501,6 +514,10 @@ pub fn build_into_raw(p: &Program, cfg: &Cfg) -> Result<Vec<u8>, String> {
                 } else {
                     if (k + s) % 2 == 1 {
                         w.append_file_content(ids[&i], s as u64, CapRead { inner: &data[..], cap: 3 }).map_err(|e| format!("op {k} {}: {e:?}", o.short()))?;
+                    } else if (k + s) % 4 == 2 {
+                        let mut longer = data.clone();
+                        longer.extend_from_slice(&SURPLUS);
+                        w.append_file_content(ids[&i], s as u64, &longer[..]).map_err(|e| format!("op {k} {}: {e:?}", o.short()))?;
                     } else {
                         w.append_file_content(ids[&i], s as u64, &data[..]).map_err(|e| format!("op {k} {}: {e:?}", o.short()))?;
                     }
@@ -733,6 +750,8 @@ pub fn status_variant(dbg: &str) -> String {
 /// Err(("open", msg)) if the fail-safe reader could not be created,
 /// Err(("convert", msg)) if convert_to_archive returned Err.
 /// name of the entry that half of the repairs put into the output writer before converting
+/// bytes that follow the announced size in some append sources: they belong to no file
+pub const SURPLUS: [u8; 9] = [0xA5; 9];
 pub const PREPOPULATED: &str = "\u{1}verif-note-present-before-the-repair";
 
 pub fn repair_from<R: Read>(src: R, key_indices: &[usize], unauthenticated: bool) -> Result<RepairResult, (String, String)> {
